@@ -18,7 +18,7 @@ def solo(hist, i):
 def run(tier, replay_file=None):
     R = common.Run("C16", tier, "model_checking")
     quick = tier == "quick"
-    mc = tlc.run("Server", dict(consts('{"i1","i2"}', 2, kv='{0,3}' if quick else '{0,3,4}'), L='99'), invariants=["Continuity", "AliveOK"],
+    mc = tlc.run("Server", dict(consts('{"i1","i2"}', 2, kv='{0,3}' if quick else '{0,3,4}'), L='0'), invariants=["Continuity", "AliveOK"],
                  properties=["Isolated"], view="View", spec="Spec", timeout=3000)
     if mc.violation:
         R.violation("spec:" + mc.violation, {"trace": mc.trace[:3000]})
